@@ -20,22 +20,28 @@ import (
 
 // Env is what a rule sees.
 type Env struct {
-	P      *load.Program
-	C      *ir.Ctx
-	R      *report.Report
-	facts  map[*ssa.Function]*ir.FuncFacts
-	groles *GraphRoles
-	nroles *NodeRoles
-	aroles *AgentRoles
-	sfields *SchedFields
-	tables   map[*ssa.Global][]TableEntry
-	tablesOK map[*ssa.Global]bool
-	anySite bool // splitOnCall accepts helpers with several call sites (expandBound)
+	P             *load.Program
+	C             *ir.Ctx
+	R             *report.Report
+	facts         map[*ssa.Function]*ir.FuncFacts
+	groles        *GraphRoles
+	nroles        *NodeRoles
+	aroles        *AgentRoles
+	sfields       *SchedFields
+	noEvalT       string
+	sinkFields    map[string]string
+	fieldStoreIdx map[string][]ssa.Value
+	inWays        bool
+	noEvalF       string
+	tables        map[*ssa.Global][]TableEntry
+	tablesOK      map[*ssa.Global]bool
+	anySite       bool // splitOnCall accepts helpers with several call sites (expandBound)
 }
 
 func NewEnv(p *load.Program, r *report.Report) *Env {
 	e := &Env{P: p, C: ir.NewCtx(), R: r, facts: map[*ssa.Function]*ir.FuncFacts{}}
 	ir.SetUniqueSites(e.uniqueSites())
+	hookEnv = e
 	return e
 }
 
@@ -46,6 +52,9 @@ func (e *Env) uniqueSites() map[*ssa.Function]ssa.CallInstruction {
 	sites := map[*ssa.Function][]ssa.CallInstruction{}
 	taken := map[*ssa.Function]bool{}
 	for f := range e.P.Funcs {
+		if f.Synthetic != "" && f.Parent() == nil && !strings.HasPrefix(f.Name(), "init") {
+			continue // compiler-made wrappers (pointer-receiver thunks, bound methods) are not call sites of the program text
+		}
 		for _, b := range f.Blocks {
 			for _, in := range b.Instrs {
 				var callee *ssa.Function
@@ -104,7 +113,7 @@ func (e *Env) uniqueSites() map[*ssa.Function]ssa.CallInstruction {
 		if n := e.P.CG.Nodes[f]; n != nil && f.Signature.Recv() != nil {
 			dyn := false
 			for _, ed := range n.In {
-				if ed.Site != nil && ed.Site != ss[0] && e.P.Funcs[ed.Caller.Func] {
+				if ed.Site != nil && ed.Site != ss[0] && e.P.Funcs[ed.Caller.Func] && ed.Caller.Func.Synthetic == "" {
 					dyn = true
 				}
 			}
@@ -147,6 +156,9 @@ func (e *Env) Facts(fn *ssa.Function) *ir.FuncFacts {
 func (e *Env) Fn(rel, name string) *ssa.Function {
 	f := e.P.Func(rel, name)
 	if f == nil || f.Blocks == nil {
+		f = e.methodByRole(rel, name)
+	}
+	if f == nil || f.Blocks == nil {
 		e.R.Unknown("anchor "+rel+"."+name, "-", "anchor function not found in the current tree (renamed or removed?): the rule cannot be evaluated")
 		return nil
 	}
@@ -157,9 +169,48 @@ func (e *Env) Fn(rel, name string) *ssa.Function {
 func (e *Env) FnQuiet(rel, name string) *ssa.Function {
 	f := e.P.Func(rel, name)
 	if f == nil || f.Blocks == nil {
+		f = e.methodByRole(rel, name)
+	}
+	if f == nil || f.Blocks == nil {
 		return nil
 	}
 	return f
+}
+
+// methodByRole: an exported method of an unexported type is part of an
+// interface's implementation; the type's own name is not part of any contract.
+// "(*impl).Method" that is not found under that type name is the one exported
+// method of that name on an unexported type of the package, if there is exactly one.
+func (e *Env) methodByRole(rel, name string) *ssa.Function {
+	i := strings.Index(name, ").")
+	if !strings.HasPrefix(name, "(") || i < 0 {
+		return nil
+	}
+	recv, m := strings.Trim(name[:i], "(*"), name[i+2:]
+	if m == "" || !token.IsExported(m) || token.IsExported(recv) {
+		return nil
+	}
+	sp := e.P.Pkg(rel)
+	if sp == nil {
+		return nil
+	}
+	var found *ssa.Function
+	n := 0
+	for f := range e.P.Funcs {
+		if f.Package() != sp || f.Parent() != nil || f.Name() != m || f.Signature.Recv() == nil || f.Blocks == nil {
+			continue
+		}
+		rn := typesName(derefT(f.Signature.Recv().Type()))
+		if rn == "" || token.IsExported(rn) {
+			continue
+		}
+		found = f
+		n++
+	}
+	if n != 1 {
+		return nil
+	}
+	return found
 }
 
 func (e *Env) Pos(p token.Pos) string { return e.P.Pos(p) }
@@ -295,11 +346,46 @@ func SameValue(a, b ssa.Value) bool {
 	if oka && okb && ua.Op == token.MUL && ub.Op == token.MUL && ua.X == ub.X {
 		return true
 	}
+	// two reads of the same field of the same object (`g.succ` read twice)
+	if oka && okb && ua.Op == token.MUL && ub.Op == token.MUL {
+		fa, ok1 := ua.X.(*ssa.FieldAddr)
+		fb, ok2 := ub.X.(*ssa.FieldAddr)
+		if ok1 && ok2 && fa.Field == fb.Field && types.Identical(fa.X.Type(), fb.X.Type()) {
+			return sameValueD(fa.X, fb.X, 1)
+		}
+	}
+	return false
+}
+
+func sameValueD(a, b ssa.Value, depth int) bool {
+	if depth > 4 {
+		return false
+	}
+	a, b = ir.Deep(a), ir.Deep(b)
+	if a == b {
+		return true
+	}
+	ua, oka := a.(*ssa.UnOp)
+	ub, okb := b.(*ssa.UnOp)
+	if oka && okb && ua.Op == token.MUL && ub.Op == token.MUL {
+		if ua.X == ub.X {
+			return true
+		}
+		fa, ok1 := ua.X.(*ssa.FieldAddr)
+		fb, ok2 := ub.X.(*ssa.FieldAddr)
+		if ok1 && ok2 && fa.Field == fb.Field && types.Identical(fa.X.Type(), fb.X.Type()) {
+			return sameValueD(fa.X, fb.X, depth+1)
+		}
+	}
 	return false
 }
 
 // HasCmp looks for a literal `subject op const` in a normalised literal list.
 func HasCmp(ls []ir.NLit, isSubject func(ssa.Value) bool, op token.Token, k int64) bool {
+	return impliedBy(ls, func(ls []ir.NLit) bool { return hasCmp(ls, isSubject, op, k) })
+}
+
+func hasCmp(ls []ir.NLit, isSubject func(ssa.Value) bool, op token.Token, k int64) bool {
 	for _, l := range ls {
 		if l.Kind == "cmp" && l.Op == op && isSubject(l.X) {
 			if c, ok := ir.ConstInt(l.Y); ok && c == k {
@@ -312,6 +398,10 @@ func HasCmp(ls []ir.NLit, isSubject func(ssa.Value) bool, op token.Token, k int6
 
 // HasVal looks for a boolean literal whose value satisfies pred with the polarity.
 func HasVal(ls []ir.NLit, pred func(ssa.Value) bool, pol bool) bool {
+	return impliedBy(ls, func(ls []ir.NLit) bool { return hasVal(ls, pred, pol) })
+}
+
+func hasVal(ls []ir.NLit, pred func(ssa.Value) bool, pol bool) bool {
 	for _, l := range ls {
 		if l.Kind == "val" && l.Pol == pol && pred(l.V) {
 			return true
@@ -322,6 +412,10 @@ func HasVal(ls []ir.NLit, pred func(ssa.Value) bool, pol bool) bool {
 
 // HasNilCmp looks for `x != nil` (nonNil=true) or `x == nil`.
 func HasNilCmp(ls []ir.NLit, isSubject func(ssa.Value) bool, nonNil bool) bool {
+	return impliedBy(ls, func(ls []ir.NLit) bool { return hasNilCmp(ls, isSubject, nonNil) })
+}
+
+func hasNilCmp(ls []ir.NLit, isSubject func(ssa.Value) bool, nonNil bool) bool {
 	want := token.EQL
 	if nonNil {
 		want = token.NEQ
@@ -521,9 +615,9 @@ func (e *Env) ReachesRepo(from *ssa.Function, to func(*ssa.Function) bool) bool 
 				}
 				if c.IsInvoke() && strings.HasPrefix(ir.NamedType(c.Value.Type()), load.ModulePath) {
 					// (only a method can be called dynamically without being used as a value:
-		// for plain functions the address-taken test above is exact, and the
-		// signature-based call graph would only add spurious callers)
-		if n := e.P.CG.Nodes[f]; n != nil && f.Signature.Recv() != nil {
+					// for plain functions the address-taken test above is exact, and the
+					// signature-based call graph would only add spurious callers)
+					if n := e.P.CG.Nodes[f]; n != nil && f.Signature.Recv() != nil {
 						for _, ed := range n.Out {
 							if ed.Site == ci {
 								stack = append(stack, ed.Callee.Func)
@@ -643,4 +737,105 @@ func RetVals(rt *ssa.Return, i int) []ssa.Value {
 		}
 	}
 	return ir.StoresTo(al)
+}
+
+// impliedBy: the conjunction contains the wanted literal - as written, or in
+// every way it can hold once the helpers, one-expression predicates and constant
+// tables it mentions are expanded (`n.hasStatus(None)` contains `status == None`).
+// The bindings of a predicate's parameters are in force while `has` looks.
+func impliedBy(ls []ir.NLit, has func([]ir.NLit) bool) bool {
+	if has(ls) {
+		return true
+	}
+	e := hookEnv
+	if e == nil || e.inWays || len(ls) == 0 {
+		return false
+	}
+	e.inWays = true
+	defer func() { e.inWays = false }()
+	all, n := true, 0
+	changed := false
+	e.ways(ls, func(alt []ir.NLit) {
+		n++
+		if len(alt) != len(ls) {
+			changed = true
+		} else {
+			for i := range alt {
+				if alt[i] != ls[i] {
+					changed = true
+				}
+			}
+		}
+		if !has(alt) {
+			all = false
+		}
+	})
+	return changed && all && n > 0
+}
+
+// hookEnv is the environment the literal predicates use for expansion.
+var hookEnv *Env
+
+// callSitesAll: the call sites of f in the repository: the static ones and the
+// dynamic calls the call graph resolves to f (a handler kept in a dispatch table
+// and called through the looked-up function value). Compiler-made thunks are
+// call sites like any other here: their parameters map one to one.
+func (e *Env) callSitesAll(f *ssa.Function) []ssa.CallInstruction {
+	out := e.StaticCallSites(f)
+	seen := map[ssa.CallInstruction]bool{}
+	for _, ci := range out {
+		seen[ci] = true
+	}
+	if n := e.P.CG.Nodes[f]; n != nil {
+		for _, ed := range n.In {
+			if ed.Site == nil || seen[ed.Site] || ed.Caller == nil || !e.P.Funcs[ed.Caller.Func] {
+				continue
+			}
+			c := ed.Site.Common()
+			if c.IsInvoke() || c.StaticCallee() != nil {
+				continue
+			}
+			// the called value has exactly f's signature (the signature-based graph offers more)
+			if !types.Identical(c.Value.Type().Underlying(), f.Signature) {
+				continue
+			}
+			seen[ed.Site] = true
+			out = append(out, ed.Site)
+		}
+	}
+	return out
+}
+
+// argEverywhere: v satisfies pred - itself, or, being a parameter, at every call
+// site of its function (followed a few levels up).
+func (e *Env) argEverywhere(v ssa.Value, depth int, pred func(ssa.Value) bool) bool {
+	v = ir.Deep(v)
+	if pred(v) {
+		return true
+	}
+	p, ok := v.(*ssa.Parameter)
+	if !ok || depth > 3 {
+		return false
+	}
+	idx := -1
+	for i, q := range p.Parent().Params {
+		if q == p {
+			idx = i
+		}
+	}
+	sites := e.callSitesAll(p.Parent())
+	if len(sites) == 0 || idx < 0 {
+		return false
+	}
+	for _, cs := range sites {
+		if idx >= len(cs.Common().Args) || !e.argEverywhere(cs.Common().Args[idx], depth+1, pred) {
+			return false
+		}
+	}
+	return true
+}
+
+// IsFieldReadAll: IsFieldRead, for a parameter at every call site of its function.
+func (e *Env) IsFieldReadAll(v ssa.Value, suffix string) bool {
+	return e.argEverywhere(v, 0, func(x ssa.Value) bool { return e.IsFieldRead(x, nil, suffix) })
 }
